@@ -335,7 +335,8 @@ class C11(PoolCheck):
             m = rng.choice(applicable)            # only mutations whose pattern occurs in this document
             muts.append([m, rng.randrange(0, max(1, min(24, body.count(self.MUTATIONS[m][1]))))])
         case = {'kind': 'lexical', 'entry': key, 'doc': di, 'muts': muts, 'api': rng.choice(APIS),
-                'lazy': rng.choice([0, 0, 1, 2]), 'src': {'ch': 'bytes'}, 'hints': rng.random() < 0.3}
+                'lazy': rng.choice([0, 0, 1, 2]), 'src': {'ch': 'bytes'}, 'hints': rng.random() < 0.3,
+                'defuse': 'always' if rng.random() < 0.25 else None}      # the defusing pre-parse meets the mutation first
         if rng.random() < 0.15:
             # decoding through the other converters, with and without keeping unknown content
             case['api'] = rng.choice(['decode_lax', 'decode_lax', 'decode', 'decode_skip'])
@@ -639,7 +640,7 @@ class C11(PoolCheck):
             data, changed = self.reencode(doc.data, case['reencode']), True
         keep = {}
         res = jcopy(self.call(e.schema, data, case['api'], case['lazy'], keep, hints=case.get('hints'),
-                              conv=case.get('conv'), keep_unknown=case.get('keep_unknown')))
+                              conv=case.get('conv'), keep_unknown=case.get('keep_unknown'), defuse=case.get('defuse')))
         violations = []
         lax = case['api'] in LAX_APIS and not isinstance(data, str)
         sig = self.class_violation(res, keep, case['api'], {}, lax)
